@@ -20,6 +20,8 @@ def run(model, rep, tier):
     rep.explanation = __doc__.strip()
     from ._common import caches_for
     caches_for(model, rep, 'C06')
+    from ._common import inverse_map_placed
+    inverse_map_placed(model, rep, [('OnsagerCalc', 'VacancyMediated', '__init__', 'invmap')])
     rep.not_decided = 'the tracer identities themselves (Lsv = -L0vv, L1vv = 0, 0 <= Lss <= L0vv)'
     rep.rule('keys-are-parameters', 'returned keys are preene2betafree parameters and carry the array of the same name')
     rep.rule('neutral-solute', 'solute / interaction prefactors are ones, energies zeros, with the documented sizes')
